@@ -90,6 +90,9 @@ def expected_module(d, v):
                     inline = True
                 visit(sname, sub)
                 fact["kind"] = "structarr" if arr else "struct"; fact["struct"] = sname
+                members = [m for m in sub if inr(parse_range(m.get("versions", m.get("taggedVersions"))), v)]
+                if not arr and tag is not None and members and all("default" in m for m in members):
+                    fact["_default_is_struct_of_member_defaults"] = True      # "defaults as the definition states"
                 fact["optional"] = nullable_v if (arr or inline) else False
             exp.append(fact)
         out[name] = exp
@@ -184,6 +187,16 @@ def run(ctx):
                 for cname, facts in exp.items():
                     c = got[cname]
                     obs = [observed_fact(f) for f in c["fields"]]
+                    for fct, fobs in zip(facts, c["fields"]):
+                        if fct.pop("_default_is_struct_of_member_defaults", False) and fct["name"] == fobs["name"]:
+                            dv = fobs.get("default")
+                            nested = got.get(fct["struct"])
+                            want_fields = None if nested is None else [m["default"] for m in nested["fields"]]
+                            if not (isinstance(dv, dict) and dv.get("instance_of", "").endswith(":" + fct["struct"]) and dv.get("fields") == want_fields):
+                                prop_bad.append({"definition": d["name"], "version": v, "class": cname, "field": fobs["name"],
+                                                 "what": "every member of this tagged struct has a default in the definition, so the field's default "
+                                                         "is the struct of the member defaults", "generated_default": dv, "member_defaults": want_fields})
+                    facts = [{k: x for k, x in fct.items() if not k.startswith("_")} for fct in facts]
                     if obs != facts:
                         diff = [(o, e) for o, e in zip(obs, facts) if o != e][:2] or [("field count", len(obs), len(facts))]
                         prop_bad.append({"definition": d["name"], "version": v, "class": cname,
